@@ -88,6 +88,11 @@ type serverAPISessionsKickReq struct {
 	res  chan serverAPISessionsKickRes
 }
 
+type serverPathEvent struct {
+	pa    defs.Path
+	ready bool
+}
+
 type serverMetrics interface {
 	SetHLSServer(defs.APIHLSServer)
 }
@@ -133,9 +138,13 @@ type Server struct {
 	httpServer *httpServer
 	muxers     map[string]*muxer
 
+	// path events are queued: the path manager must never wait for run(),
+	// since run() may be waiting for a muxer that in turn is waiting for the path manager.
+	pathEventsMutex sync.Mutex
+	pathEvents      []serverPathEvent
+
 	// in
-	chPathReady       chan defs.Path
-	chPathNotReady    chan defs.Path
+	chPathEvent       chan struct{}
 	chGetMuxer        chan serverGetMuxerReq
 	chCloseMuxer      chan *muxer
 	chAPIMuxerList    chan serverAPIMuxersListReq
@@ -152,8 +161,7 @@ func (s *Server) Initialize() error {
 	s.ctx = ctx
 	s.ctxCancel = ctxCancel
 	s.muxers = make(map[string]*muxer)
-	s.chPathReady = make(chan defs.Path)
-	s.chPathNotReady = make(chan defs.Path)
+	s.chPathEvent = make(chan struct{}, 1)
 	s.chGetMuxer = make(chan serverGetMuxerReq)
 	s.chCloseMuxer = make(chan *muxer)
 	s.chAPIMuxerList = make(chan serverAPIMuxersListReq)
@@ -236,21 +244,12 @@ func (s *Server) run() {
 outer:
 	for {
 		select {
-		case pa := <-s.chPathReady:
-			if s.AlwaysRemux && !pa.SafeConf().SourceOnDemand {
-				if _, ok := s.muxers[pa.Name()]; !ok {
-					s.createMuxer(pa.Name(), "", "")
-				}
-			}
-
-		case pa := <-s.chPathNotReady:
-			c, ok := s.muxers[pa.Name()]
-			if ok && c.remoteAddr == "" { // created with "always remux"
-				c.Close()
-				delete(s.muxers, pa.Name())
-			}
+		case <-s.chPathEvent:
+			s.processPathEvents()
 
 		case req := <-s.chGetMuxer:
+			s.processPathEvents()
+
 			mux, ok := s.muxers[req.path]
 			switch {
 			case ok:
@@ -264,11 +263,15 @@ outer:
 			}
 
 		case c := <-s.chCloseMuxer:
+			s.processPathEvents()
+
 			if c2, ok := s.muxers[c.PathName()]; ok && c2 == c {
 				delete(s.muxers, c.PathName())
 			}
 
 		case req := <-s.chAPIMuxerList:
+			s.processPathEvents()
+
 			data := &defs.APIHLSMuxerList{
 				Items: []defs.APIHLSMuxer{},
 			}
@@ -286,6 +289,8 @@ outer:
 			}
 
 		case req := <-s.chAPIMuxerGet:
+			s.processPathEvents()
+
 			muxer, ok := s.muxers[req.name]
 			if !ok {
 				req.res <- serverAPIMuxersGetRes{err: ErrMuxerNotFound}
@@ -295,6 +300,8 @@ outer:
 			req.res <- serverAPIMuxersGetRes{data: muxer.apiItem()}
 
 		case req := <-s.chAPISessionsList:
+			s.processPathEvents()
+
 			data := &defs.APIHLSSessionList{
 				Items: []defs.APIHLSSession{},
 			}
@@ -310,6 +317,8 @@ outer:
 			req.res <- serverAPISessionsListRes{data: data}
 
 		case req := <-s.chAPISessionsGet:
+			s.processPathEvents()
+
 			for _, muxer := range s.muxers {
 				session, ok := muxer.apiSessionsGet(req.uuid)
 				if ok {
@@ -321,6 +330,8 @@ outer:
 			req.res <- serverAPISessionsGetRes{err: ErrSessionNotFound}
 
 		case req := <-s.chAPISessionsKick:
+			s.processPathEvents()
+
 			for _, muxer := range s.muxers {
 				ok := muxer.apiSessionsKick(req.uuid)
 				if ok {
@@ -339,6 +350,42 @@ outer:
 	s.ctxCancel()
 
 	s.httpServer.close()
+}
+
+// processPathEvents handles the events queued by PathReady() and PathNotReady(), in their order.
+// It is called before serving any request, so that a request issued after an event sees its effects.
+func (s *Server) processPathEvents() {
+	s.pathEventsMutex.Lock()
+	events := s.pathEvents
+	s.pathEvents = nil
+	s.pathEventsMutex.Unlock()
+
+	for _, ev := range events {
+		if ev.ready {
+			if s.AlwaysRemux && !ev.pa.SafeConf().SourceOnDemand {
+				if _, ok := s.muxers[ev.pa.Name()]; !ok {
+					s.createMuxer(ev.pa.Name(), "", "")
+				}
+			}
+		} else {
+			c, ok := s.muxers[ev.pa.Name()]
+			if ok && c.remoteAddr == "" { // created with "always remux"
+				c.Close()
+				delete(s.muxers, ev.pa.Name())
+			}
+		}
+	}
+}
+
+func (s *Server) pushPathEvent(ev serverPathEvent) {
+	s.pathEventsMutex.Lock()
+	s.pathEvents = append(s.pathEvents, ev)
+	s.pathEventsMutex.Unlock()
+
+	select {
+	case s.chPathEvent <- struct{}{}:
+	default:
+	}
 }
 
 func (s *Server) createMuxer(pathName string, remoteAddr string, query string) *muxer {
@@ -384,20 +431,14 @@ func (s *Server) getMuxer(req serverGetMuxerReq) (*muxer, error) {
 	}
 }
 
-// PathReady is called by pathManager.
+// PathReady is called by pathManager. It does not block.
 func (s *Server) PathReady(pa defs.Path) {
-	select {
-	case s.chPathReady <- pa:
-	case <-s.ctx.Done():
-	}
+	s.pushPathEvent(serverPathEvent{pa: pa, ready: true})
 }
 
-// PathNotReady is called by pathManager.
+// PathNotReady is called by pathManager. It does not block.
 func (s *Server) PathNotReady(pa defs.Path) {
-	select {
-	case s.chPathNotReady <- pa:
-	case <-s.ctx.Done():
-	}
+	s.pushPathEvent(serverPathEvent{pa: pa, ready: false})
 }
 
 // APIMuxersList implements defs.APIHLSServer.
